@@ -1431,6 +1431,14 @@ def run(rep, ctx):
     fe = one("mp::pre::ValuePresolverImpl::FinishExportingLinkEntries")
     p3.check(any(c.get("callee") == "mp::pre::ValuePresolverImpl::ExportRemainingEntries" for c in fe.walk() if c["k"] == "CXXMemberCallExpr"),
              "finish-exports-remaining", short_loc(fe.loc), "FinishExportingLinkEntries calls ExportRemainingEntries")
+    # the final flush happens once, at the end: an earlier flush marks the still extensible last range as exported, and entries merged into
+    # it later are never written
+    c_fin = sorted(callers.get("mp::pre::ValuePresolverImpl::FinishExportingLinkEntries", set()))
+    c_ere = sorted(callers.get("mp::pre::ValuePresolverImpl::ExportRemainingEntries", set()))
+    p3.check(c_fin == ["mp::FlatConverter::CloseGraphExporter"] and set(c_ere) <= {"mp::pre::ValuePresolverImpl::Add", "mp::pre::ValuePresolverImpl::FinishExportingLinkEntries"},
+             "flush-only-at-close", short_loc(cge.loc), "FinishExportingLinkEntries is called by CloseGraphExporter only; ExportRemainingEntries by Add and by the final flush only",
+             "link entries are flushed from %s / %s: a flush before the last producer closes the last range for export while it can still be extended, "
+             "so entries added to it afterwards get no record" % (c_fin, c_ere))
     fmi = one("mp::FlatConverter::FinishModelInput")
     cg_call = [c for c in fmi.walk() if c["k"] == "CXXMemberCallExpr" and c.get("callee") == "mp::FlatConverter::CloseGraphExporter"]
     if len(cg_call) != 1:
